@@ -478,6 +478,7 @@ func exec(c proto.Case, o *proto.Out) []string {
 		}
 	}
 	o.Extra["float_mean_worst_relative_deviation_ppb"] = worstRelPPB
+	o.Extra["generated_cases_dropped_because_the_implementation_answered_nondeterministically"] = droppedNondet
 	o.Extra["float_mean_tolerance"] = "relative 1e-4 of max(1, exact mean); labelled TEST"
 	if converged {
 		o.Count("case-converged")
